@@ -200,7 +200,7 @@ def run(ctx):
     rng = ctx.rng
     # fixed mix: ordinary generated nets + the low-flow meshes in which automatic damping rejects steps
     mult = 1 if ctx.quick else 14
-    plan = (["water"] * 5 + ["water_thermal"] * 4 + ["gas"] * 5 + ["heat"] * 5 + ["lowflow"] * 6 +
+    plan = (["water"] * 5 + ["water_thermal"] * 4 + ["gas"] * 4 + ["gas_hilly"] * 7 + ["heat"] * 5 + ["lowflow"] * 6 +
             ["lowflow_default_tol"] * 14 + ["lowflow_thermal"] * 5) * mult
     n_nets = len(plan)
     nconv = 0
@@ -209,6 +209,18 @@ def run(ctx):
         profile = plan[k]
         if profile.startswith("lowflow"):
             spec = lowflow_mesh(rng)
+        elif profile == "gas_hilly":
+            # large height differences: the hydrostatic term rho(p)*g*dh makes gas results sensitive to any
+            # quantity frozen at the start pressures
+            spec = gen.gen_net(rng, "gas", features={"island": False, "oos_junction": False})
+            for fn, kw in spec["ops"]:
+                if fn == "create_junction":
+                    kw["height_m"] = rng.choice([0., 60., 150., -40., 300., 400.])
+                if fn == "create_ext_grid":
+                    kw["p_bar"] = 16.0
+            for fn, kw in spec["ops"]:
+                if fn == "create_junction":
+                    kw["pn_bar"] = 16.0
         else:
             spec = gen.gen_net(rng, "water" if profile == "water_thermal" else profile)
         d = gen.describe(spec)
